@@ -72,7 +72,7 @@ def generate_code_for_partition(partition: DistributedGraphPartition) \
                        key=lambda part_: sorted(part_.output_names)):
         d = make_dict_of_named_arrays(
                     {var_name: partition.name_to_output[var_name]
-                        for var_name in part.output_names
+                        for var_name in sorted(part.output_names)
                      })
         part_id_to_prg[part.pid] = generate_loopy(d)
 
